@@ -295,6 +295,84 @@ func (r *run) c16tcp(budget int) {
 	}
 }
 
+// ---- C01: malformed frames through the live receivers ----
+
+// every service identifier the decoder knows
+var serviceIDs = []uint16{0x0201, 0x0202, 0x0203, 0x0204, 0x0205, 0x0206, 0x0207, 0x0208, 0x0209, 0x020a,
+	0x0420, 0x0421, 0x0530, 0x0531, 0x0532}
+
+// c01live: sequences of malformed frames of C01's input classes through a live TCP and UDP receiver.
+// On TCP the header stays honest about the frame's length (so the stream stays framed) while the body
+// is truncated or its length octets lie; a malformed frame is dropped and the frames behind it - and
+// the sentinel - still arrive.
+func (r *run) c01live(budget int) {
+	malformed := func(tcp bool) []byte {
+		_, l := r.frames(1, false)
+		f := append([]byte(nil), l[0]...)
+		if len(f) > 600 {
+			f = f[:600]
+			f[4], f[5] = byte(len(f)>>8), byte(len(f))
+		}
+		switch r.g.R.Intn(7) {
+		case 0: // header only, every service identifier
+			id := serviceIDs[r.g.R.Intn(len(serviceIDs))]
+			r.classes["header-only-frame"]++
+			return []byte{6, 16, byte(id >> 8), byte(id), 0, 6}
+		case 1, 2: // truncation, header total length follows
+			k := 6 + r.g.R.Intn(len(f)-5)
+			if r.g.R.Intn(5) == 0 {
+				k = 6 + r.g.R.Intn(3)
+			}
+			if k > len(f) {
+				k = len(f)
+			}
+			f = f[:k]
+			f[4], f[5] = byte(k>>8), byte(k)
+			r.classes["truncated-honest-header"]++
+		case 3: // truncation with the header still announcing the full length (UDP only: TCP would wait)
+			if !tcp {
+				f = f[:6+r.g.R.Intn(len(f)-5)]
+				r.classes["truncated-lying-header"]++
+			}
+		case 4: // an embedded length octet disagrees with the bytes present
+			if len(f) > 7 {
+				f[6+r.g.R.Intn(len(f)-6)] = byte(r.g.Pick(0, 1, 2, 7, 8, 30, 54, 200, 255))
+				r.classes["embedded-length-perturbed"]++
+			}
+		case 5: // description response with a zero-length block
+			f = r.g.DescrResFrameWithUnknown()
+			f = append(f, 0, 0xfe, 1, 2)
+			f[4], f[5] = byte(len(f)>>8), byte(len(f))
+			r.classes["zero-length-description-block"]++
+		default:
+			r.classes["well-formed"]++
+		}
+		return f
+	}
+	for r.nOps < budget {
+		n := 2 + r.g.R.Intn(6)
+		var stream []byte
+		var ds [][]byte
+		for i := 0; i < n; i++ {
+			f := malformed(true)
+			stream = append(stream, f...)
+		}
+		var pos []int
+		for p := 1; p < len(stream); p++ {
+			if r.g.R.Intn(25) == 0 {
+				pos = append(pos, p)
+			}
+		}
+		r.tcpOp(cut(stream, pos))
+		for i := 0; i < n; i++ {
+			if f := malformed(false); len(f) > 0 {
+				ds = append(ds, f)
+			}
+		}
+		r.udpOp(ds)
+	}
+}
+
 // ---- UDP ----
 
 func (r *run) udpOp(dgrams [][]byte) {
@@ -732,6 +810,7 @@ func main() {
 	seed := flag.Int64("seed", 1, "PRNG seed")
 	budget := flag.Int("budget", 400, "number of operations")
 	dir := flag.String("dir", "", "output directory")
+	quiet := flag.Float64("quiet", 16.5, "seconds a socket stays silent after one Send before the peer transmits again (C16)")
 	flag.Parse()
 	if *dir == "" {
 		fmt.Fprintln(os.Stderr, "need -dir")
@@ -749,13 +828,25 @@ func main() {
 	start := time.Now()
 	switch *prop {
 	case "C16":
+		join := r.quietProbe(time.Duration(*quiet * float64(time.Second)))
 		r.c16tcp(*budget * 6 / 10)
 		r.c16udp(*budget)
+		join()
 	case "C16send":
 		r.prop = "C16"
 		r.c16send(*budget)
+		r.c16router(*budget / 3)
 		r.c16hostinfo()
 		r.c16closePending()
+	case "C01live":
+		r.prop = "C01"
+		r.c01live(*budget)
+	case "C10live":
+		r.prop = "C10"
+		r.c10live(*budget)
+	case "C16router":
+		r.prop = "C16"
+		r.c16router(*budget)
 	case "C20":
 		r.c20(*budget)
 	default:
